@@ -1042,6 +1042,11 @@ impl SctpTransport {
 
 #[cfg(rustrtc_verif)]
 impl SctpTransport {
+    /// Mark the association established without a handshake (harnesses that only exercise the send path
+    /// up to the outbound queue and never run the association's loop).
+    pub fn verif_mark_established(&self) {
+        *self.inner.state.lock() = SctpState::Connected;
+    }
     /// (stream id, SSN, flags, payload length) of every chunk waiting in the outbound queue, in queue order.
     pub fn verif_outbound_snapshot(&self) -> Vec<(u16, u16, u8, usize)> {
         self.inner
